@@ -8,9 +8,10 @@ vars == <<s, plot, phase>>
 RECURSIVE Sub(_, _)
 Sub(S, n) == IF n = 0 THEN {{}} ELSE Sub(S, n - 1) \cup {T \cup {x} : T \in Sub(S, n - 1), x \in S}
 Sets == {T \in Sub(Choices, K) : Consistent(T) /\ \A ch \in T : \A r \in Requires(ch.flag) : \E x \in T : x.flag = r}
-Plots == {"standard", "pithist", "reliability", "obsfcst"}
+Plots == {"standard", "pithist", "reliability", "obsfcst", "map"}
 Init == /\ s \in Sets /\ plot \in Plots /\ phase = "case" /\ (plot # "standard" => Cardinality(s) <= 1)
         /\ ((\E ch \in s : ch.flag = "-obsleg") => plot = "obsfcst") /\ (plot = "obsfcst" => \E ch \in s : ch.flag = "-obsleg")
+        /\ ((\E ch \in s : ch.flag \in MapOnly) => plot = "map") /\ (plot = "map" => \E ch \in s : ch.flag \in MapOnly)
 RECURSIVE Flat(_)
 Flat(q) == IF q = <<>> THEN <<>> ELSE Head(q) \o Flat(Tail(q))
 ToSeq(S) == IF S = {} THEN <<>> ELSE LET RECURSIVE F(_) F(T) == IF T = {} THEN <<>> ELSE LET x == CHOOSE y \in T : TRUE IN <<x>> \o F(T \ {x}) IN F(S)
